@@ -6,6 +6,7 @@ From V Require Import Model.DateTime Model.C04.
 Import ListNotations.
 Open Scope Z_scope.
 Ltac Zify.zify_post_hook ::= Z.to_euclidean_division_equations.
+Set Default Timeout 20.  (* DEV *)
 
 Ltac solve_in := unfold in_i32, in_u32, in_i64, in_u64, in_range, i32_min, i32_max, u32_max,
   i64_min, i64_max, u64_max; lia.
@@ -150,7 +151,8 @@ Proof. split; reflexivity. Qed.
 (** day number of a date word (total: [d_year]/[d_ordinal] are shifts and masks) *)
 Definition dn (d : Z) : Z := dn_of_yo (Date.d_year d) (Date.d_ordinal d).
 (** date words of the supported dates: the results of the checked constructor *)
-Definition nominal (d : Z) : Prop := exists y o, Date.from_yo_opt y o = Val (Some d).
+Definition nominal (d : Z) : Prop :=
+  exists y o, in_i32 y = true /\ in_u32 o = true /\ Date.from_yo_opt y o = Val (Some d).
 (** ... plus the two headroom dates *)
 Definition dateok (d : Z) : Prop := nominal d \/ d = Date.D_BEFORE_MIN \/ d = Date.D_AFTER_MAX.
 
@@ -169,9 +171,9 @@ Definition dtz_ok (a : dtz) : Prop := ndt_ok (dz_utc a) /\ off_ok (dz_off a).
 
 (** the range ends and the headroom dates, by computation *)
 Lemma nominal_MIN : nominal Date.D_MIN.
-Proof. exists (-262143), 1. vm_compute. reflexivity. Qed.
+Proof. exists (-262143), 1. vm_compute. repeat split; reflexivity. Qed.
 Lemma nominal_MAX : nominal Date.D_MAX.
-Proof. exists 262142, 365. vm_compute. reflexivity. Qed.
+Proof. exists 262142, 365. vm_compute. repeat split; reflexivity. Qed.
 Lemma dn_MIN : dn Date.D_MIN = DN_MIN. Proof. vm_compute. reflexivity. Qed.
 Lemma dn_MAX : dn Date.D_MAX = DN_MAX. Proof. vm_compute. reflexivity. Qed.
 Lemma dn_BEFORE_MIN : dn Date.D_BEFORE_MIN = DN_MIN - 1. Proof. vm_compute. reflexivity. Qed.
@@ -189,40 +191,49 @@ Lemma headroom_flags :
   Date.d_year Date.D_AFTER_MAX = MAX_YEAR + 1 /\ Date.d_ordinal Date.D_AFTER_MAX = 1.
 Proof. vm_compute. repeat split; reflexivity. Qed.
 
-(** all accessors on a date word agree with the calendar reading of its day number *)
-Definition acc_ok (d : Z) : Prop :=
+(** the accessors of a date word agree with the calendar reading of its day number *)
+Definition fields_ok (d : Z) : Prop :=
   let n := dn d in
   let '(y, m, dd) := ymd_of_dn n in
   Date.d_year d = y /\ Date.d_month d = Val m /\ Date.d_day d = Val dd /\
-  Date.d_ordinal d = ordinal_of_dn n /\ Date.d_weekday d = Val (weekday_of_dn n) /\
-  exists w, Date.d_iso_week d = Val w /\ (Date.iw_year w, Date.iw_week w) = iso_of_dn n.
-(** the same as a computable check *)
+  Date.d_ordinal d = ordinal_of_dn n /\ Date.d_weekday d = Val (weekday_of_dn n).
+Definition iso_ok (d : Z) : Prop :=
+  exists w, Date.d_iso_week d = Val w /\ (Date.iw_year w, Date.iw_week w) = iso_of_dn (dn d).
+(** the same as computable checks *)
 Definition rZ_is (r : R Z) (x : Z) : bool := match r with Val v => v =? x | _ => false end.
-Definition acc_okb (d : Z) : bool :=
+Definition fields_okb (d : Z) : bool :=
   let n := dn d in
   let '(y, m, dd) := ymd_of_dn n in
   (Date.d_year d =? y) && rZ_is (Date.d_month d) m && rZ_is (Date.d_day d) dd &&
-  (Date.d_ordinal d =? ordinal_of_dn n) && rZ_is (Date.d_weekday d) (weekday_of_dn n) &&
+  (Date.d_ordinal d =? ordinal_of_dn n) && rZ_is (Date.d_weekday d) (weekday_of_dn n).
+Definition iso_okb (d : Z) : bool :=
   match Date.d_iso_week d with
-  | Val w => (Date.iw_year w =? fst (iso_of_dn n)) && (Date.iw_week w =? snd (iso_of_dn n))
+  | Val w => (Date.iw_year w =? fst (iso_of_dn (dn d))) && (Date.iw_week w =? snd (iso_of_dn (dn d)))
   | _ => false
   end.
 Lemma rZ_is_true r x : rZ_is r x = true -> r = Val x.
 Proof. destruct r; cbn; try discriminate. intros H. apply Z.eqb_eq in H. subst. reflexivity. Qed.
-Lemma acc_okb_ok d : acc_okb d = true -> acc_ok d.
+Lemma fields_okb_ok d : fields_okb d = true -> fields_ok d.
 Proof.
-  unfold acc_okb, acc_ok. destruct (ymd_of_dn (dn d)) as [[y m] dd].
+  unfold fields_okb, fields_ok. destruct (ymd_of_dn (dn d)) as [[y m] dd].
   intros H. repeat (apply andb_prop in H; destruct H as [H ?]).
-  apply Z.eqb_eq in H. apply rZ_is_true in H4, H3, H1. apply Z.eqb_eq in H2.
-  repeat split; try assumption.
-  destruct (Date.d_iso_week d) as [w| |]; try discriminate.
-  exists w. split; [reflexivity|]. apply andb_prop in H0. destruct H0 as [Ha Hb].
+  apply Z.eqb_eq in H. apply rZ_is_true in H3, H2, H0. apply Z.eqb_eq in H1.
+  repeat split; assumption.
+Qed.
+Lemma iso_okb_ok d : iso_okb d = true -> iso_ok d.
+Proof.
+  unfold iso_okb, iso_ok. destruct (Date.d_iso_week d) as [w| |]; try discriminate.
+  intros H. exists w. split; [reflexivity|]. apply andb_prop in H. destruct H as [Ha Hb].
   apply Z.eqb_eq in Ha, Hb. rewrite Ha, Hb. destruct (iso_of_dn (dn d)); reflexivity.
 Qed.
-Lemma acc_BEFORE_MIN : acc_ok Date.D_BEFORE_MIN.
-Proof. apply acc_okb_ok. vm_compute. reflexivity. Qed.
-Lemma acc_AFTER_MAX : acc_ok Date.D_AFTER_MAX.
-Proof. apply acc_okb_ok. vm_compute. reflexivity. Qed.
+Lemma fields_BEFORE_MIN : fields_ok Date.D_BEFORE_MIN.
+Proof. apply fields_okb_ok. vm_compute. reflexivity. Qed.
+Lemma fields_AFTER_MAX : fields_ok Date.D_AFTER_MAX.
+Proof. apply fields_okb_ok. vm_compute. reflexivity. Qed.
+Lemma iso_BEFORE_MIN : iso_ok Date.D_BEFORE_MIN.
+Proof. apply iso_okb_ok. vm_compute. reflexivity. Qed.
+Lemma iso_AFTER_MAX : iso_ok Date.D_AFTER_MAX.
+Proof. apply iso_okb_ok. vm_compute. reflexivity. Qed.
 
 Lemma ndt_eta a : mk_ndt (nd_date a) (nd_time a) = a. Proof. destruct a. reflexivity. Qed.
 Lemma time_eta t : Time.mk_time (Time.tsecs t) (Time.tfrac t) = t. Proof. destruct t. reflexivity. Qed.
@@ -236,6 +247,145 @@ Proof.
 Qed.
 
 Ltac ulia := unfold DN_MIN, DN_MAX, TMIN, TMAX in *; lia.
+
+Lemma succ_AFTER_MAX : exists x, Date.succ_opt Date.D_AFTER_MAX = Val (Some x) /\ Date.D_MAX < x.
+Proof. eexists. split; [vm_compute; reflexivity|vm_compute; reflexivity]. Qed.
+Lemma pred_BEFORE_MIN : exists x, Date.pred_opt Date.D_BEFORE_MIN = Val (Some x) /\ x < Date.D_MIN.
+Proof. eexists. split; [vm_compute; reflexivity|vm_compute; reflexivity]. Qed.
+Lemma MIN_MAX_words : Date.D_BEFORE_MIN < Date.D_MIN /\ Date.D_MAX < Date.D_AFTER_MAX.
+Proof. vm_compute. split; reflexivity. Qed.
+
+
+(** * General lemmas (no calendar-core facts needed) *)
+Lemma cmpZ_spec x y : (x < y /\ cmpZ x y = -1) \/ (x = y /\ cmpZ x y = 0) \/ (x > y /\ cmpZ x y = 1).
+Proof.
+  unfold cmpZ. destruct (x ?= y) eqn:E.
+  - apply Z.compare_eq in E. auto.
+  - left. split; [apply Z.compare_lt_iff; exact E|reflexivity].
+  - right. right. split; [apply Z.compare_gt_iff in E; lia|reflexivity].
+Qed.
+
+Definition md_boundsb (leap : bool) (o : Z) : bool :=
+  let '(m, d) := md_of_ordinal leap o in (1 <=? m) && (m <=? 12) && (1 <=? d) && (d <=? 32).
+
+Lemma md_bounds leap o : 1 <= o <= 366 ->
+  let '(m, d) := md_of_ordinal leap o in 1 <= m <= 12 /\ 1 <= d <= 32.
+Proof.
+  intros Ho. assert (H : md_boundsb leap o = true).
+  { destruct leap.
+    - apply (forall_range_spec (md_boundsb true) 366 1); [vm_compute; reflexivity|lia].
+    - apply (forall_range_spec (md_boundsb false) 366 1); [vm_compute; reflexivity|lia]. }
+  unfold md_boundsb in H. destruct (md_of_ordinal leap o) as [m d]. lia.
+Qed.
+
+Lemma ordinal_bounds n : 1 <= ordinal_of_dn n <= 366.
+Proof.
+  unfold ordinal_of_dn, yo_of_dn. cbn [snd].
+  set (r3 := ((n - 1) mod 146097 - Z.min ((n - 1) mod 146097 / 36524) 3 * 36524) mod 1461).
+  assert (0 <= r3 < 1461) by (unfold r3; apply Z.mod_pos_bound; lia).
+  clearbody r3. destruct (Z.min_spec (r3 / 365) 3) as [[? ->]|[? ->]]; lia.
+Qed.
+
+Lemma ymd_bounds n : let '(y, m, d) := ymd_of_dn n in 1 <= m <= 12 /\ 1 <= d <= 32.
+Proof.
+  unfold ymd_of_dn. pose proof (ordinal_bounds n) as Ho. unfold ordinal_of_dn in Ho.
+  destruct (yo_of_dn n) as [y o]. cbn [snd] in Ho.
+  pose proof (md_bounds (is_leap y) o Ho) as Hm. destruct (md_of_ordinal (is_leap y) o). exact Hm.
+Qed.
+
+Lemma hms_spec t : time_ok t ->
+  Time.hour t = Time.tsecs t / 3600 /\ Time.minute t = Time.tsecs t / 60 mod 60 /\ Time.second t = Time.tsecs t mod 60.
+Proof.
+  intros [Hs _]. unfold Time.hour, Time.minute, Time.second, Time.hms, Time.udiv, Time.urem.
+  rewrite !Z.quot_div_nonneg, !Z.rem_mod_nonneg by lia. repeat split; lia.
+Qed.
+
+Lemma ndt_le_spec a b :
+  ndt_le a b = (nd_date a <? nd_date b) || ((nd_date a =? nd_date b) &&
+     ((Time.tsecs (nd_time a) <? Time.tsecs (nd_time b)) || ((Time.tsecs (nd_time a) =? Time.tsecs (nd_time b)) &&
+        (Time.tfrac (nd_time a) <=? Time.tfrac (nd_time b))))).
+Proof.
+  unfold ndt_le, ndt_cmp, cmp_lex.
+  destruct (cmpZ_spec (nd_date a) (nd_date b)) as [[C1 ->]|[[C1 ->]|[C1 ->]]];
+  destruct (cmpZ_spec (Time.tsecs (nd_time a)) (Time.tsecs (nd_time b))) as [[C2 ->]|[[C2 ->]|[C2 ->]]];
+  destruct (cmpZ_spec (Time.tfrac (nd_time a)) (Time.tfrac (nd_time b))) as [[C3 ->]|[[C3 ->]|[C3 ->]]];
+  cbn [Z.eqb]; lia.
+Qed.
+
+Lemma out_of_range_word x tm off : x < Date.D_MIN \/ Date.D_MAX < x ->
+  in_utc_range (mk_dtz (mk_ndt x tm) off) = false.
+Proof.
+  intros H. unfold in_utc_range. cbn [dz_utc]. rewrite !ndt_le_spec.
+  unfold NDT_MIN, NDT_MAX, T_MIN, T_MAX. cbn [nd_date nd_time Time.tsecs Time.tfrac]. lia.
+Qed.
+
+Definition new_time (field sod f x : Z) : option (Z * Z) :=
+  if field =? 7 then if x <? 24 then Some (x * 3600 + sod mod 3600, f) else None
+  else if field =? 8 then if x <? 60 then Some (sod / 3600 * 3600 + x * 60 + sod mod 60, f) else None
+  else if field =? 9 then if x <? 60 then Some (sod / 60 * 60 + x, f) else None
+  else if x <? 2000000000 then Some (sod, x) else None.
+
+Lemma ndt_with_time_spec field l x : 7 <= field <= 10 -> time_ok (nd_time l) -> in_u32 x = true ->
+  ndt_with field l x =
+  Val (match new_time field (Time.tsecs (nd_time l)) (Time.tfrac (nd_time l)) x with
+       | Some (s', f') => Some (mk_ndt (nd_date l) (Time.mk_time s' f'))
+       | None => None end) /\
+  match new_time field (Time.tsecs (nd_time l)) (Time.tfrac (nd_time l)) x with
+  | Some (s', f') => time_ok (Time.mk_time s' f')
+  | None => True end.
+Proof.
+  intros Hfld [Hs Hf] Hx. unfold ndt_with, new_time.
+  set (s := Time.tsecs (nd_time l)) in *. set (f := Time.tfrac (nd_time l)) in *.
+  replace (field =? 0) with false by lia. replace (field =? 1) with false by lia.
+  replace (field =? 2) with false by lia. replace (field =? 3) with false by lia.
+  replace (field =? 4) with false by lia. replace (field =? 5) with false by lia.
+  replace (field =? 6) with false by lia.
+  unfold in_u32, in_range, u32_max in Hx.
+  destruct (field =? 7) eqn:E7.
+  - unfold ndt_map_time, Time.with_hour, Time.urem. fold s f.
+    replace (x >=? 24) with (negb (x <? 24)) by lia.
+    destruct (x <? 24) eqn:Ex; cbn [negb]; unfold obind; cbv [bind]; [|split; [reflexivity|exact I]].
+    unfold mul_u32, add_u32, chk. replace (in_u32 (x * 3600)) with true by (symmetry; solve_in). cbv [bind].
+    rewrite Z.rem_mod_nonneg by lia.
+    replace (in_u32 (x * 3600 + s mod 3600)) with true by (symmetry; solve_in).
+    split; [reflexivity|]. unfold time_ok. cbn [Time.tsecs Time.tfrac]. lia.
+  - destruct (field =? 8) eqn:E8.
+    + unfold ndt_map_time, Time.with_minute, Time.urem, Time.udiv. fold s f.
+      replace (x >=? 60) with (negb (x <? 60)) by lia.
+      destruct (x <? 60) eqn:Ex; cbn [negb]; unfold obind; cbv [bind]; [|split; [reflexivity|exact I]].
+      rewrite Z.rem_mod_nonneg, Z.quot_div_nonneg by lia.
+      unfold mul_u32, add_u32, chk.
+      replace (in_u32 (s / 3600 * 3600)) with true by (symmetry; solve_in). cbv [bind].
+      replace (in_u32 (x * 60)) with true by (symmetry; solve_in). cbv [bind].
+      replace (in_u32 (s / 3600 * 3600 + x * 60)) with true by (symmetry; solve_in). cbv [bind].
+      replace (in_u32 (s / 3600 * 3600 + x * 60 + s mod 60)) with true by (symmetry; solve_in).
+      split; [reflexivity|]. unfold time_ok. cbn [Time.tsecs Time.tfrac]. lia.
+    + destruct (field =? 9) eqn:E9.
+      * unfold ndt_map_time, Time.with_second, Time.udiv. fold s f.
+        replace (x >=? 60) with (negb (x <? 60)) by lia.
+        destruct (x <? 60) eqn:Ex; cbn [negb]; unfold obind; cbv [bind]; [|split; [reflexivity|exact I]].
+        rewrite Z.quot_div_nonneg by lia.
+        unfold mul_u32, add_u32, chk.
+        replace (in_u32 (s / 60 * 60)) with true by (symmetry; solve_in). cbv [bind].
+        replace (in_u32 (s / 60 * 60 + x)) with true by (symmetry; solve_in).
+        split; [reflexivity|]. unfold time_ok. cbn [Time.tsecs Time.tfrac]. lia.
+      * replace (field =? 10) with true by lia.
+        unfold ndt_map_time, Time.with_nanosecond. fold s f.
+        replace (x >=? 2000000000) with (negb (x <? 2000000000)) by lia.
+        destruct (x <? 2000000000) eqn:Ex; cbn [negb]; unfold obind; cbv [bind]; [|split; [reflexivity|exact I]].
+        split; [reflexivity|]. unfold time_ok. cbn [Time.tsecs Time.tfrac]. lia.
+Qed.
+
+Lemma mlt_and_then_refilter (r : mlt dtz) (g : dtz -> bool) :
+  (r = MNone \/ exists x, r = MSingle x) ->
+  mlt_and_then r (fun x => if g x then Some x else None) =
+  match (match mlt_single r with Some x => if g x then Some x else None | None => None end) with
+  | Some x => MSingle x | None => MNone end.
+Proof. intros [->|[x ->]]; cbn; [reflexivity|]. destruct (g x); reflexivity. Qed.
+
+Lemma in_rng_days n r : 0 <= r < 86400 ->
+  in_rng (n * 86400 + r) = (DN_MIN <=? n) && (n <=? DN_MAX).
+Proof. intros Hr. unfold in_rng, TMIN, TMAX, DN_MIN, DN_MAX. lia. Qed.
 
 (** Facts about Model/Date.v that belong to C01 (to be proved there for the nominal dates): the day
     number is an order embedding of the date words into [DN_MIN, DN_MAX], successor / predecessor
@@ -251,7 +401,7 @@ Definition date_facts : Prop :=
   (forall d, nominal d ->
      if DN_MIN <? dn d then exists d', Date.pred_opt d = Val (Some d') /\ nominal d' /\ dn d' = dn d - 1
      else Date.pred_opt d = Val None) /\
-  (forall d, nominal d -> acc_ok d).
+  (forall d, nominal d -> fields_ok d).
 
 Section ModuloDateTime.
 Hypothesis HD : date_facts.
@@ -276,8 +426,8 @@ Proof.
   rewrite dn_MIN in *. rewrite dn_MAX in *. lia.
 Qed.
 
-Lemma dateok_acc d : dateok d -> acc_ok d.
-Proof. intros [H|[->| ->]]; [apply H_acc; exact H|apply acc_BEFORE_MIN|apply acc_AFTER_MAX]. Qed.
+Lemma dateok_fields d : dateok d -> fields_ok d.
+Proof. intros [H|[->| ->]]; [apply H_acc; exact H|apply fields_BEFORE_MIN|apply fields_AFTER_MAX]. Qed.
 Lemma dateok_range d : dateok d -> DN_MIN - 1 <= dn d <= DN_MAX + 1.
 Proof.
   intros [H|[->| ->]]; [pose proof (H_range d H); lia| rewrite dn_BEFORE_MIN; ulia|rewrite dn_AFTER_MAX; ulia].
@@ -347,9 +497,6 @@ Proof.
   unfold DN_MIN, DN_MAX in Hr. lia.
 Qed.
 
-Lemma in_rng_days n r : 0 <= r < 86400 ->
-  in_rng (n * 86400 + r) = (DN_MIN <=? n) && (n <=? DN_MAX).
-Proof. intros Hr. unfold in_rng, TMIN, TMAX, DN_MIN, DN_MAX. lia. Qed.
 
 Lemma ndt_checked_add_offset_spec a off : ndt_ok a -> off_ok off ->
   if in_rng (usecs a + off)
@@ -470,13 +617,6 @@ Theorem from_utc_then_local off u : ndt_ok u -> off_ok off ->
 Proof. intros Hu Ho. split; [split; assumption|reflexivity]. Qed.
 
 (** * Equality and ordering are those of the instants (second count, fraction) *)
-Lemma cmpZ_spec x y : (x < y /\ cmpZ x y = -1) \/ (x = y /\ cmpZ x y = 0) \/ (x > y /\ cmpZ x y = 1).
-Proof.
-  unfold cmpZ. destruct (x ?= y) eqn:E.
-  - apply Z.compare_eq in E. auto.
-  - left. split; [apply Z.compare_lt_iff; exact E|reflexivity].
-  - right. right. split; [apply Z.compare_gt_iff in E; lia|reflexivity].
-Qed.
 
 Theorem cmp_is_instant_order a b : dtz_ok a -> dtz_ok b ->
   dz_cmp a b = cmp_lex [usecs (dz_utc a); frac (dz_utc a)] [usecs (dz_utc b); frac (dz_utc b)] /\
@@ -500,83 +640,57 @@ Proof.
 Qed.
 
 (** * Accessors read the wall clock (including the one-day headroom) *)
-Definition md_boundsb (leap : bool) (o : Z) : bool :=
-  let '(m, d) := md_of_ordinal leap o in (1 <=? m) && (m <=? 12) && (1 <=? d) && (d <=? 32).
-Lemma md_bounds leap o : 1 <= o <= 366 ->
-  let '(m, d) := md_of_ordinal leap o in 1 <= m <= 12 /\ 1 <= d <= 32.
-Proof.
-  intros Ho. assert (H : md_boundsb leap o = true).
-  { destruct leap.
-    - apply (forall_range_spec (md_boundsb true) 366 1); [vm_compute; reflexivity|lia].
-    - apply (forall_range_spec (md_boundsb false) 366 1); [vm_compute; reflexivity|lia]. }
-  unfold md_boundsb in H. destruct (md_of_ordinal leap o) as [m d]. lia.
-Qed.
-Lemma ordinal_bounds n : 1 <= ordinal_of_dn n <= 366.
-Proof.
-  unfold ordinal_of_dn, yo_of_dn. cbn [snd].
-  set (r3 := ((n - 1) mod 146097 - Z.min ((n - 1) mod 146097 / 36524) 3 * 36524) mod 1461).
-  assert (0 <= r3 < 1461) by (unfold r3; apply Z.mod_pos_bound; lia).
-  clearbody r3. destruct (Z.min_spec (r3 / 365) 3) as [[? ->]|[? ->]]; lia.
-Qed.
-Lemma ymd_bounds n : let '(y, m, d) := ymd_of_dn n in 1 <= m <= 12 /\ 1 <= d <= 32.
-Proof.
-  unfold ymd_of_dn. pose proof (ordinal_bounds n) as Ho. unfold ordinal_of_dn in Ho.
-  destruct (yo_of_dn n) as [y o]. cbn [snd] in Ho.
-  pose proof (md_bounds (is_leap y) o Ho) as Hm. destruct (md_of_ordinal (is_leap y) o). exact Hm.
-Qed.
 
-Lemma hms_spec t : time_ok t ->
-  Time.hour t = Time.tsecs t / 3600 /\ Time.minute t = Time.tsecs t / 60 mod 60 /\ Time.second t = Time.tsecs t mod 60.
-Proof.
-  intros [Hs _]. unfold Time.hour, Time.minute, Time.second, Time.hms, Time.udiv, Time.urem.
-  rewrite !Z.quot_div_nonneg, !Z.rem_mod_nonneg by lia. repeat split; lia.
-Qed.
 
-Definition wall_fields (w f : Z) : list Z :=
-  let n := w / 86400 in let sod := w mod 86400 in
-  let '(y, m, d) := ymd_of_dn n in let o := ordinal_of_dn n in
-  [y; m; m - 1; d; d - 1; o; o - 1; weekday_of_dn n; sod / 3600; sod / 60 mod 60; sod mod 60; f;
-   fst (iso_of_dn n); snd (iso_of_dn n)].
-
+(** every accessor returns the field of the wall clock W = UTC + offset *)
 Theorem accessors_wallclock a : dtz_ok a ->
-  dz_acc a = Val (VTup (map VInt (wall_fields (wall a) (frac (dz_utc a))))).
+  let w := wall a in let n := w / 86400 in let sod := w mod 86400 in
+  let '(y, m, d) := ymd_of_dn n in
+  dz_year a = Val y /\ dz_month a = Val m /\ dz_month0 a = Val (m - 1) /\
+  dz_day a = Val d /\ dz_day0 a = Val (d - 1) /\
+  dz_ordinal a = Val (ordinal_of_dn n) /\ dz_ordinal0 a = Val (ordinal_of_dn n - 1) /\
+  dz_weekday a = Val (weekday_of_dn n) /\
+  dz_hour a = Val (sod / 3600) /\ dz_minute a = Val (sod / 60 mod 60) /\ dz_second a = Val (sod mod 60) /\
+  dz_nanosecond a = Val (frac (dz_utc a)).
 Proof.
   intros Ha. destruct (overflowing_naive_local_spec a Ha) as [l [Hl [[Hd Ht] [Hu Hf]]]].
-  pose proof (dateok_acc _ Hd) as Hacc. unfold acc_ok in Hacc.
+  pose proof (dateok_fields _ Hd) as Hacc. unfold fields_ok in Hacc.
   assert (Hn : dn (nd_date l) = wall a / 86400 /\ Time.tsecs (nd_time l) = wall a mod 86400).
   { unfold usecs in Hu. destruct Ht as [Hs _]. lia. }
   destruct Hn as [Hn Hsod]. rewrite Hn in Hacc.
   pose proof (ymd_bounds (wall a / 86400)) as Hb. pose proof (ordinal_bounds (wall a / 86400)) as Hob.
-  unfold wall_fields. destruct (ymd_of_dn (wall a / 86400)) as [[y m] d].
-  destruct Hacc as [A1 [A2 [A3 [A4 [A5 [w [A6 A7]]]]]]].
+  cbv zeta. destruct (ymd_of_dn (wall a / 86400)) as [[y m] d].
+  destruct Hacc as [A1 [A2 [A3 [A4 A5]]]].
   destruct (hms_spec _ Ht) as [T1 [T2 T3]].
-  unfold dz_acc, dz_year, dz_month, dz_month0, dz_day, dz_day0, dz_ordinal, dz_ordinal0, dz_weekday,
-    dz_hour, dz_minute, dz_second, dz_nanosecond, dz_iso_week, dz_get.
+  unfold dz_year, dz_month, dz_month0, dz_day, dz_day0, dz_ordinal, dz_ordinal0, dz_weekday,
+    dz_hour, dz_minute, dz_second, dz_nanosecond, dz_get.
   rewrite Hl. cbv [bind].
-  unfold ndt_year, ndt_month, ndt_month0, ndt_day, ndt_day0, ndt_ordinal, ndt_ordinal0, ndt_weekday, ndt_iso_week,
+  unfold ndt_year, ndt_month, ndt_month0, ndt_day, ndt_day0, ndt_ordinal, ndt_ordinal0, ndt_weekday,
     ndt_hour, ndt_minute, ndt_second, ndt_nanosecond, Time.nanosecond.
-  rewrite A1, A2, A3, A4, A5, A6, T1, T2, T3, Hsod. cbv [bind].
+  rewrite A1, A2, A3, A4, A5, T1, T2, T3, Hsod. cbv [bind].
   unfold sub_u32, chk.
   replace (in_u32 (m - 1)) with true by (symmetry; solve_in).
   replace (in_u32 (d - 1)) with true by (symmetry; solve_in).
   replace (in_u32 (ordinal_of_dn (wall a / 86400) - 1)) with true by (symmetry; solve_in).
-  cbv [bind]. unfold frac in Hf. rewrite Hf.
-  rewrite <- A7. cbn [fst snd map]. reflexivity.
+  unfold frac in Hf. rewrite Hf. repeat split; reflexivity.
+Qed.
+
+(** ISO week of the wall clock, given the ISO-week lemma of the calendar core for nominal dates
+    (C01, not yet available); the two headroom dates are computed here *)
+Theorem iso_week_wallclock a : (forall d, nominal d -> iso_ok d) -> dtz_ok a ->
+  exists w, dz_iso_week a = Val w /\ (Date.iw_year w, Date.iw_week w) = iso_of_dn (wall a / 86400).
+Proof.
+  intros HI Ha. destruct (overflowing_naive_local_spec a Ha) as [l [Hl [[Hd Ht] [Hu Hf]]]].
+  assert (Hn : dn (nd_date l) = wall a / 86400).
+  { unfold usecs in Hu. destruct Ht as [Hs _]. lia. }
+  assert (Hiso : iso_ok (nd_date l)).
+  { destruct Hd as [H|[->| ->]]; [apply HI; exact H|apply iso_BEFORE_MIN|apply iso_AFTER_MAX]. }
+  destruct Hiso as [w [W1 W2]]. exists w. rewrite <- Hn. split; [|exact W2].
+  unfold dz_iso_week, dz_get. rewrite Hl. cbv [bind]. exact W1.
 Qed.
 
 (** * Re-resolution of a (possibly headroom) wall clock in the zone, range-filtered: the common tail
       of map_local (all field setters), with_time (as repaired) and day stepping *)
-Lemma ndt_le_spec a b :
-  ndt_le a b = (nd_date a <? nd_date b) || ((nd_date a =? nd_date b) &&
-     ((Time.tsecs (nd_time a) <? Time.tsecs (nd_time b)) || ((Time.tsecs (nd_time a) =? Time.tsecs (nd_time b)) &&
-        (Time.tfrac (nd_time a) <=? Time.tfrac (nd_time b))))).
-Proof.
-  unfold ndt_le, ndt_cmp, cmp_lex.
-  destruct (cmpZ_spec (nd_date a) (nd_date b)) as [[C1 ->]|[[C1 ->]|[C1 ->]]];
-  destruct (cmpZ_spec (Time.tsecs (nd_time a)) (Time.tsecs (nd_time b))) as [[C2 ->]|[[C2 ->]|[C2 ->]]];
-  destruct (cmpZ_spec (Time.tfrac (nd_time a)) (Time.tfrac (nd_time b))) as [[C3 ->]|[[C3 ->]|[C3 ->]]];
-  cbn [Z.eqb]; lia.
-Qed.
 
 (** the one reading the filter refuses inside the second range: a leap fraction in the last second *)
 Definition leap_at_max (t f : Z) : bool := (t =? TMAX) && (1000000000 <=? f).
@@ -601,19 +715,6 @@ Definition refiltered (off : Z) (l' : ndt) : R (option dtz) :=
   let* r := from_local_datetime off l' in
   Val (match mlt_single r with Some x => if in_utc_range x then Some x else None | None => None end).
 
-Lemma succ_AFTER_MAX : exists x, Date.succ_opt Date.D_AFTER_MAX = Val (Some x) /\ Date.D_MAX < x.
-Proof. eexists. split; [vm_compute; reflexivity|vm_compute; reflexivity]. Qed.
-Lemma pred_BEFORE_MIN : exists x, Date.pred_opt Date.D_BEFORE_MIN = Val (Some x) /\ x < Date.D_MIN.
-Proof. eexists. split; [vm_compute; reflexivity|vm_compute; reflexivity]. Qed.
-Lemma MIN_MAX_words : Date.D_BEFORE_MIN < Date.D_MIN /\ Date.D_MAX < Date.D_AFTER_MAX.
-Proof. vm_compute. split; reflexivity. Qed.
-
-Lemma out_of_range_word x tm off : x < Date.D_MIN \/ Date.D_MAX < x ->
-  in_utc_range (mk_dtz (mk_ndt x tm) off) = false.
-Proof.
-  intros H. unfold in_utc_range. cbn [dz_utc]. rewrite !ndt_le_spec.
-  unfold NDT_MIN, NDT_MAX, T_MIN, T_MAX. cbn [nd_date nd_time Time.tsecs Time.tfrac]. lia.
-Qed.
 
 (** classification of [from_local_datetime] on a wall clock whose date may be a headroom date:
     inside the second range it is the exact value; outside it is either refused or a value whose UTC
@@ -731,12 +832,6 @@ Proof.
 Qed.
 
 (** ** with_time (as repaired in 6a10a33: the same range filter as map_local) *)
-Lemma mlt_and_then_refilter (r : mlt dtz) (g : dtz -> bool) :
-  (r = MNone \/ exists x, r = MSingle x) ->
-  mlt_and_then r (fun x => if g x then Some x else None) =
-  match (match mlt_single r with Some x => if g x then Some x else None | None => None end) with
-  | Some x => MSingle x | None => MNone end.
-Proof. intros [->|[x ->]]; cbn; [reflexivity|]. destruct (g x); reflexivity. Qed.
 
 Theorem with_time_spec a t : dtz_ok a -> time_ok t ->
   let w' := wall a / 86400 * 86400 + Time.tsecs t in
@@ -770,62 +865,7 @@ Proof.
 Qed.
 
 (** ** replacing a time-of-day field of the wall clock (hour 7, minute 8, second 9, nanosecond 10) *)
-Definition new_time (field sod f x : Z) : option (Z * Z) :=
-  if field =? 7 then if x <? 24 then Some (x * 3600 + sod mod 3600, f) else None
-  else if field =? 8 then if x <? 60 then Some (sod / 3600 * 3600 + x * 60 + sod mod 60, f) else None
-  else if field =? 9 then if x <? 60 then Some (sod / 60 * 60 + x, f) else None
-  else if x <? 2000000000 then Some (sod, x) else None.
 
-Lemma ndt_with_time_spec field l x : 7 <= field <= 10 -> time_ok (nd_time l) -> in_u32 x = true ->
-  ndt_with field l x =
-  Val (match new_time field (Time.tsecs (nd_time l)) (Time.tfrac (nd_time l)) x with
-       | Some (s', f') => Some (mk_ndt (nd_date l) (Time.mk_time s' f'))
-       | None => None end) /\
-  match new_time field (Time.tsecs (nd_time l)) (Time.tfrac (nd_time l)) x with
-  | Some (s', f') => time_ok (Time.mk_time s' f')
-  | None => True end.
-Proof.
-  intros Hfld [Hs Hf] Hx. unfold ndt_with, new_time.
-  set (s := Time.tsecs (nd_time l)) in *. set (f := Time.tfrac (nd_time l)) in *.
-  replace (field =? 0) with false by lia. replace (field =? 1) with false by lia.
-  replace (field =? 2) with false by lia. replace (field =? 3) with false by lia.
-  replace (field =? 4) with false by lia. replace (field =? 5) with false by lia.
-  replace (field =? 6) with false by lia.
-  unfold in_u32, in_range, u32_max in Hx.
-  destruct (field =? 7) eqn:E7.
-  - unfold ndt_map_time, Time.with_hour, Time.urem. fold s f.
-    replace (x >=? 24) with (negb (x <? 24)) by lia.
-    destruct (x <? 24) eqn:Ex; cbn [negb]; unfold obind; cbv [bind]; [|split; [reflexivity|exact I]].
-    unfold mul_u32, add_u32, chk. replace (in_u32 (x * 3600)) with true by (symmetry; solve_in). cbv [bind].
-    rewrite Z.rem_mod_nonneg by lia.
-    replace (in_u32 (x * 3600 + s mod 3600)) with true by (symmetry; solve_in).
-    split; [reflexivity|]. unfold time_ok. cbn [Time.tsecs Time.tfrac]. lia.
-  - destruct (field =? 8) eqn:E8.
-    + unfold ndt_map_time, Time.with_minute, Time.urem, Time.udiv. fold s f.
-      replace (x >=? 60) with (negb (x <? 60)) by lia.
-      destruct (x <? 60) eqn:Ex; cbn [negb]; unfold obind; cbv [bind]; [|split; [reflexivity|exact I]].
-      rewrite Z.rem_mod_nonneg, Z.quot_div_nonneg by lia.
-      unfold mul_u32, add_u32, chk.
-      replace (in_u32 (s / 3600 * 3600)) with true by (symmetry; solve_in). cbv [bind].
-      replace (in_u32 (x * 60)) with true by (symmetry; solve_in). cbv [bind].
-      replace (in_u32 (s / 3600 * 3600 + x * 60)) with true by (symmetry; solve_in). cbv [bind].
-      replace (in_u32 (s / 3600 * 3600 + x * 60 + s mod 60)) with true by (symmetry; solve_in).
-      split; [reflexivity|]. unfold time_ok. cbn [Time.tsecs Time.tfrac]. lia.
-    + destruct (field =? 9) eqn:E9.
-      * unfold ndt_map_time, Time.with_second, Time.udiv. fold s f.
-        replace (x >=? 60) with (negb (x <? 60)) by lia.
-        destruct (x <? 60) eqn:Ex; cbn [negb]; unfold obind; cbv [bind]; [|split; [reflexivity|exact I]].
-        rewrite Z.quot_div_nonneg by lia.
-        unfold mul_u32, add_u32, chk.
-        replace (in_u32 (s / 60 * 60)) with true by (symmetry; solve_in). cbv [bind].
-        replace (in_u32 (s / 60 * 60 + x)) with true by (symmetry; solve_in).
-        split; [reflexivity|]. unfold time_ok. cbn [Time.tsecs Time.tfrac]. lia.
-      * replace (field =? 10) with true by lia.
-        unfold ndt_map_time, Time.with_nanosecond. fold s f.
-        replace (x >=? 2000000000) with (negb (x <? 2000000000)) by lia.
-        destruct (x <? 2000000000) eqn:Ex; cbn [negb]; unfold obind; cbv [bind]; [|split; [reflexivity|exact I]].
-        split; [reflexivity|]. unfold time_ok. cbn [Time.tsecs Time.tfrac]. lia.
-Qed.
 
 Theorem with_timefield_spec field a x : dtz_ok a -> 7 <= field <= 10 -> in_u32 x = true ->
   match new_time field (wall a mod 86400) (frac (dz_utc a)) x with
